@@ -32,19 +32,21 @@ import (
 )
 
 type target struct {
-	Pkg       string            // package pattern relative to the repo
-	Files     []string          // base names to instrument
-	Maps      []string          // struct field names holding maps to watch
-	Objs      []string          // struct field names holding objects whose method calls are accesses (all treated as writes except Avail/Len)
-	LocksOnly []string          // base names in which only Lock/Unlock calls are rewritten (no yields)
-	SyncObjs  []string          // struct field names holding concurrency-safe objects (sync.Map): a scheduling point before each method call, no race oracle
-	Entry     map[string]string // function name ("Handle" or "(*T).Handle") -> tag expression
+	Pkg        string            // package pattern relative to the repo
+	Files      []string          // base names to instrument
+	Maps       []string          // struct field names holding maps to watch
+	Objs       []string          // struct field names holding objects whose method calls are accesses (all treated as writes except Avail/Len)
+	LocksOnly  []string          // base names in which only Lock/Unlock calls are rewritten (no yields)
+	CrashAfter map[string]string // function name -> site: its final `return expr` becomes `r := expr; CrashPoint(site); return r`
+	SyncObjs   []string          // struct field names holding concurrency-safe objects (sync.Map): a scheduling point before each method call, no race oracle
+	Entry      map[string]string // function name ("Handle" or "(*T).Handle") -> tag expression
 }
 
 var targets = []target{
 	{Pkg: "./listener/agent", Files: []string{"connection.go", "agent.go", "connections.go"}},
 	{Pkg: "./pushers/file", Files: []string{"file.go"}},
 	{Pkg: "./services", Files: []string{"tftp.go", "limiter.go"}, Maps: []string{"buffers"}, SyncObjs: []string{"m"}, Entry: map[string]string{"(*tftpService).Handle": "conn.RemoteAddr().String()"}},
+	{Pkg: "./storage", Files: []string{"storage.go"}, CrashAfter: map[string]string{"(*badgeStorage).Set": "storage.Set"}},
 	{Pkg: "./listener/canary", Files: []string{"socket.go", "state.go", "canary_linux.go"}, LocksOnly: []string{"state.go", "canary_linux.go"}, Objs: []string{"rbuffer"}},
 }
 
@@ -390,6 +392,15 @@ func main() {
 					continue
 				}
 				fd.Body.List = r.list(fd.Body.List)
+				if site, ok := t.CrashAfter[funcName(fd)]; ok && len(fd.Body.List) > 0 {
+					if ret, ok := fd.Body.List[len(fd.Body.List)-1].(*ast.ReturnStmt); ok && len(ret.Results) == 1 {
+						tmp := ast.NewIdent("verifResult__")
+						assign := &ast.AssignStmt{Lhs: []ast.Expr{tmp}, Tok: token.DEFINE, Rhs: []ast.Expr{ret.Results[0]}}
+						crash := &ast.ExprStmt{X: call("CrashPoint", lit(site))}
+						fd.Body.List = append(fd.Body.List[:len(fd.Body.List)-1], assign, crash, &ast.ReturnStmt{Results: []ast.Expr{tmp}})
+						r.n++
+					}
+				}
 				if tag, ok := t.Entry[funcName(fd)]; ok {
 					te, err := parser.ParseExpr(tag)
 					if err != nil {
